@@ -14,7 +14,8 @@ from wcmatch import glob as G, fnmatch as F, _wcmatch
 ID = 'C07'
 LEVEL = 'model_checking'
 
-FN = {'N': F.NEGATE, 'M': F.MINUSNEGATE, 'A': F.NEGATEALL, 'S': F.SPLIT, 'B': F.BRACE, 'E': F.EXTMATCH, 'D': F.DOTMATCH}
+FN = {'N': F.NEGATE, 'M': F.MINUSNEGATE, 'A': F.NEGATEALL, 'S': F.SPLIT, 'B': F.BRACE, 'E': F.EXTMATCH, 'D': F.DOTMATCH,
+      'W': F.FORCEWIN}
 GL = dict(FN, G=G.GLOBSTAR, O=G.NODIR)
 
 POOL = {
@@ -321,10 +322,32 @@ def plan(tier, seed):
     }
 
 
+WIN_PIECES = ['[a\\\\|b]', '[\\\\|]', 'x[!\\\\|]', '[|\\\\]*', '@([\\\\|]|c)', '[a\\/|b]']
+
+
+def do_winsplit(res):
+    """Windows rules without path names (fnmatch): a bracket expression holding an escaped backslash or slash is a
+    bracket, so a `|` inside it never splits; lists of such pieces decompose like any other."""
+    for fs0 in ('EW', 'W', 'DEW'):
+        for a in WIN_PIECES:
+            if 'E' not in fs0 and '(' in a:
+                continue
+            for b in (None, 'c', '*.a', WIN_PIECES[0]):
+                pieces = [a] if b is None else [a, b]
+                ref, np, nn = reference('fn', pieces, [], fs0)
+                compare('fn', 'split', '|'.join(pieces), None, fs0 + 'S', ref, res, (np, nn))
+                if b is not None:
+                    compare('fn', 'list', pieces, None, fs0, ref, res, (np, nn))
+                    refx, npx, nnx = reference('fn', [a], [b], fs0)
+                    compare('fn', 'split', a + '|!' + b, None, fs0 + 'NS', refx, res, (npx, nnx))
+    res.samples.append({'winsplit': WIN_PIECES[0], 'flags': 'EWS'})
+
+
 def run_chunk(chunk):
     res = run.ChunkResult()
     if chunk[0] == 'realpath':
         do_realpath(res)
+        do_winsplit(res)
     elif chunk[0] == 'lists':
         _k, mode, mi, me, sh, ns = chunk
         do_lists(mode, res, mi, me, sh, ns)
